@@ -483,6 +483,7 @@ pub fn run_c11(ctx: &mut Ctx) -> Vec<Violation> {
     let zones = ["XXX3", "YYY-5:30", "UTC", "Asia/Kolkata", "America/St_Johns", "ZZZ-13", "AAA11:45"];
     let n = t.pick(4u64, 7u64);
     out.extend(run_enum(ctx, "tz-real-binary", n, |i| TzCase { tz: zones[i as usize].to_string(), workers: 1 + (i % 2) as u8 }, |ctx, c| check_tz(ctx, c)));
+    out.extend(super::procs::c11_burst_part(ctx));
     out
 }
 
@@ -547,6 +548,9 @@ fn check_tz(ctx: &mut Ctx, c: &TzCase) -> Res {
 pub fn replay_c11(ctx: &mut Ctx, sub: &str, case: &Value) -> Res {
     if sub == "tz-real-binary" {
         return replay_case::<TzCase, _>(ctx, case, |ctx, c| check_tz(ctx, c));
+    }
+    if sub == "burst-real-binary" {
+        return super::procs::replay_c18(ctx, sub, case);
     }
     install_logger(log::LevelFilter::Off);
     match sub {
